@@ -286,9 +286,9 @@ fn run_inproc(target: Target, text: &str) -> (Option<String>, &'static str) {
         }),
         Target::Interpreter => with_fresh_vm(|vm| {
             let mut ictx = lib::InterpreterContext::default();
-            ictx.label_map.insert("tgt".into(), lib::Label::new(lib::LabelType::CODE, 0, 3));
-            ictx.label_map.insert("vb0".into(), lib::Label::new(lib::LabelType::DATA, 0, 0));
-            ictx.label_map.insert("vw0".into(), lib::Label::new(lib::LabelType::DATA, 0, 16));
+            ictx.label_map.insert("tgt".into(), lib::Label::new(lib::LabelType::CODE, 0, 3 as _));
+            ictx.label_map.insert("vb0".into(), lib::Label::new(lib::LabelType::DATA, 0, 0 as _));
+            ictx.label_map.insert("vw0".into(), lib::Label::new(lib::LabelType::DATA, 0, 16 as _));
             ictx.fn_map.insert("fnp".into(), 5 as _);
             vm.arch.ds = 0xFFFF;
             vm.arch.bx = 0xFFFF;
